@@ -13,10 +13,12 @@ from . import astutil as A
 _UNKNOWN = object()
 
 
-def explore(cfg, env0, funcs=None, on_node=None, max_states=20000):
+def explore(cfg, env0, funcs=None, on_node=None, max_states=20000, start=None, unknown='both'):
     """Explore all abstract states reachable from entry with environment `env0` (dict path -> constant).
-    `on_node(node, env)` is called for every (node, env) visited; returns the set of visited node ids."""
-    start = (cfg.entry.id, tuple(sorted(env0.items(), key=lambda x: x[0])))
+    `on_node(node, env)` is called for every (node, env) visited; returns the set of visited node ids.
+    `start`: node to start from (default entry).  `unknown`: 'both' follows both edges of a test that is not closed,
+    'stop' does not follow it at all (the exploration leaves the region of interest there)."""
+    start = ((start or cfg.entry).id, tuple(sorted(env0.items(), key=lambda x: x[0])))
     seen = {start}
     st = [start]
     visited = set()
@@ -32,6 +34,8 @@ def explore(cfg, env0, funcs=None, on_node=None, max_states=20000):
             val = _decide(nd.ast, env, funcs)
             for s, l in nd.succ:
                 if l == 'exc':
+                    continue
+                if val is _UNKNOWN and unknown == 'stop':
                     continue
                 if val is _UNKNOWN or (val and l == 'T') or (not val and l == 'F'):
                     succs.append((s, env))
